@@ -279,7 +279,7 @@ class Exec:
                 while True:
                     ch = t[j]
                     if ch in '<([': d += 1
-                    elif ch in '>)]':
+                    elif ch in ')]' or (ch == '>' and t[j - 1] != '-'):
                         d -= 1
                         if d == 0: break
                     j += 1
